@@ -242,6 +242,10 @@ func ZZ_C15_Par() {
 		zzC15ParallelResize()
 		return
 	}
+	if sc == 5 {
+		zzC15ShrinkVsInsert()
+		return
+	}
 	m := zzNewMap(0)
 	ks := zzColliding(m, 7)
 	for _, k := range ks[:vParam("prefill")] {
@@ -397,6 +401,34 @@ func ZZ_C15_SparseResize() {
 // copyBucketWithDestLock path) is grown while another thread inserts a key into a bucket chain that is still empty:
 // the insert either lands in the old table before its bucket is copied (and is copied), or waits for the resize and
 // lands in the new table — it is never lost, and nothing else is.
+// zzC15ShrinkVsInsert: a table that has grown once holds one key; its deletion leaves the table empty and triggers
+// the shrink, while another thread inserts a key into a different bucket. The insert is never lost: afterwards the
+// key is found, Size is 1 and Range yields it (the resize must wait for writers already inside their critical section).
+func zzC15ShrinkVsInsert() {
+	m := zzNewMap(0)
+	t0 := m.table.Load()
+	m.resize(t0, mapGrowHint)
+	t1 := m.table.Load()
+	vAssert(len(t1.buckets) == 2*len(t0.buckets), "c15.shrink.grew_first")
+	last, fresh := 1, 100001
+	zzPut(m, last, 11)
+	applied := 0
+	vPar(func() { zzDel(m, last) }, func() {
+		m.Compute(fresh, func(old *zzNode) *zzNode { applied++; return &zzNode{fresh, 9} })
+	})
+	vAssert(applied == 1, "c15.shrink.update_function_exactly_once")
+	n := m.Get(fresh)
+	vAssert(n != nil && n.v == 9, "c15.shrink.concurrent_insert_survives_the_shrink")
+	vAssert(m.Get(last) == nil, "c15.shrink.deleted_key_is_gone")
+	vAssert(m.Size() == 1, "c15.shrink.size_equals_keys")
+	cnt := 0
+	m.Range(func(x *zzNode) bool { cnt++; return true })
+	vAssert(cnt == 1, "c15.shrink.range_yields_every_key")
+	if len(m.table.Load().buckets) == len(t0.buckets) {
+		vReach("c15.shrink.table_shrank")
+	}
+}
+
 func zzC15ParallelResize() {
 	m := zzNewMap(64 * nodesPerMapBucket)
 	t0 := m.table.Load()
